@@ -318,8 +318,12 @@ def _sum_like_plus(meth):
             v = r.value
             if isinstance(v, ast.BinOp) and isinstance(v.op, ast.Add) and {norm(v.left), norm(v.right)} == {a, b}:
                 return "a + b"
-            if isinstance(v, ast.BinOp) and isinstance(v.op, ast.Mod) and isinstance(v.left, ast.Constant) and isinstance(v.left.value, str) and "+" in v.left.value:
-                return "text '%s'" % v.left.value
+            from ..astutil import fold_text
+            txt = fold_text(v, {a: "\x00A\x00", b: "\x00B\x00"}) if a and b and not isinstance(v, ast.Name) else None
+            if txt is not None and "\x00A\x00" in txt and "\x00B\x00" in txt:
+                between = txt[min(txt.index("\x00A\x00"), txt.index("\x00B\x00")) + 3:max(txt.index("\x00A\x00"), txt.index("\x00B\x00"))]
+                if between.strip() == "+":
+                    return "text '%s'" % txt.replace("\x00A\x00", "%s").replace("\x00B\x00", "%s")
             src = norm(v)
             if ("math.log" in src or "log1p" in src) and "math.exp" in src:
                 return "log-sum-exp"
